@@ -660,8 +660,34 @@ func c14Shared(c *Ctx) {
 	}
 }
 
+// c14LocalTypes: a struct type declared inside a function that runs several times (its declaration is executed again each
+// time) shows every instance with its fields once, in declaration order.
+func c14LocalTypes(c *Ctx) {
+	src := "import \"fmt\"\ntype R struct {\n\tV int\n}\nfunc mk(i int) string {\n\ttype T struct {\n\t\tKey string\n\t\tN   int\n\t\tOk  bool\n\t}\n\tt := &T{Key: \"k\", N: i}\n\tts := []*T{t, &T{N: -i}}\n\treturn fmt.Sprint(t) + \"|\" + fmt.Sprint(ts)\n}\nfunc (r *R) show(i int) string {\n\ttype T struct {\n\t\tA, B int\n\t}\n\treturn fmt.Sprint(&T{A: i, B: r.V})\n}\nr := &R{V: 9}\nfor i := 1; i <= 3; i++ {\n\tprintln(mk(i), r.show(i))\n}\n"
+	want := ""
+	for i := 1; i <= 3; i++ {
+		want += fmt.Sprintf("&{Key:k N:%d Ok:false}|[&{Key:k N:%d Ok:false} &{Key: N:%d Ok:false}] &{A:%d B:9}\n", i, i, -i, i)
+	}
+	for round := 0; round < 2; round++ {
+		var out bytes.Buffer
+		vm := goat.New(goat.WithStdout(&out))
+		var err error
+		for k := 0; k <= round; k++ { // the second round evaluates the same source twice on one VM
+			out.Reset()
+			goat.VerifSetBudget(200000)
+			_, err = vm.Eval(fstest.MapFS{}, "lt.go", src)
+			goat.VerifSetBudget(-1)
+		}
+		c.Evaluations++
+		if err != nil || out.String() != want {
+			c.violate(hashKey(fmt.Sprint("localtypes", round)), fmt.Sprintf("instances of a function-local struct type print as %q (%v), want %q", clip(out.String(), 300), err, clip(want, 300)), map[string]any{"source": src, "evaluations_of_the_source": round + 1})
+		}
+	}
+}
+
 func c14Cyclic(c *Ctx) {
 	c14Shared(c)
+	c14LocalTypes(c)
 	self, err := os.Executable()
 	must(err)
 	var lines []map[string]any
